@@ -157,7 +157,7 @@ pub fn gen_src_tree(r: &mut Rng, depth: u32) -> E {
             0 => E::Literal { value: V::Boolean(r.chance(1, 2)) },
             1 => E::Literal { value: V::Number(match r.below(4) { 0 => r.below(100) as f64, 1 => (r.below(100000) as f64) / 64.0, 2 => f64::from_bits(r.next() >> 2).abs(), _ => *r.pick(&[0.0, 0.5, 1e21, 1e-7, 5e-324, 1.7976931348623157e308, 0.1, 123456789.125]) }) },
             2 => E::Literal { value: V::String(gen_str(r)) },
-            _ => E::Variable { name: (*r.pick(&["a", "b", "x1", "_y", "Zed", "é", "trueish", "android", "nota"])).to_string() },
+            _ => E::Variable { name: (*r.pick(&["a", "b", "x1", "_y", "Zed", "é", "trueish", "android", "nota", "Ⅷa", "ᛮ", "ǅ", "ªb", "x²", "dıv", "falſe", "K", "ﬁn", "ß1", "日本"])).to_string() },
         }.fix_num();
     }
     let d = depth - 1;
@@ -166,6 +166,23 @@ pub fn gen_src_tree(r: &mut Rng, depth: u32) -> E {
         2..=6 => E::Binary { left: Box::new(gen_src_tree(r, d)), right: Box::new(gen_src_tree(r, d)), operator: *r.pick(&BINOPS) },
         7 => { let n = r.below(4); E::Array { expressions: (0..n).map(|_| gen_src_tree(r, d)).collect() } }
         _ => { let n = r.below(4); E::Call { name: (*r.pick(&["f", "max", "if_then", "G_1"])).to_string(), params: (0..n).map(|_| gen_src_tree(r, d)).collect() } }
+    }
+}
+/// a WIDE source-expressible tree: a long operator chain or a long list whose items include many empty lists, zero-argument calls
+/// and parenthesised groups (anything the parser counts, opens or closes is repeated hundreds of times at nesting depth 1-2)
+pub fn gen_wide_tree(r: &mut Rng) -> E {
+    let n = 2 + r.usize(400);
+    let item = |r: &mut Rng| -> E { match r.below(8) {
+        0 | 1 => E::Array { expressions: vec![] },
+        2 | 3 => E::Call { name: (*r.pick(&["f", "now", "G_1"])).to_string(), params: vec![] },
+        4 => E::Binary { left: Box::new(gen_src_tree(r, 0)), right: Box::new(gen_src_tree(r, 0)), operator: *r.pick(&BINOPS) },
+        5 => E::Array { expressions: vec![E::Array { expressions: vec![] }, gen_src_tree(r, 0)] },
+        6 => E::Unary { right: Box::new(gen_src_tree(r, 0)), operator: *r.pick(&UNOPS) },
+        _ => gen_src_tree(r, 1) } };
+    match r.below(3) {
+        0 => E::Array { expressions: (0..n).map(|_| item(r)).collect() },
+        1 => E::Call { name: "max".into(), params: (0..n).map(|_| item(r)).collect() },
+        _ => { let mut e = item(r); for _ in 0..n { let op = *r.pick(&BINOPS); e = if r.chance(1, 8) { E::Binary { left: Box::new(item(r)), right: Box::new(e), operator: op } } else { E::Binary { left: Box::new(e), right: Box::new(item(r)), operator: op } }; } e }
     }
 }
 trait FixNum { fn fix_num(self) -> Self; }
@@ -233,3 +250,40 @@ pub fn gen_tokens(r: &mut Rng, n: usize) -> Vec<T> {
     }).collect()
 }
 pub fn show_tok_line(ts: &[T]) -> String { ts.iter().map(|t| show_tok(t, false)).collect::<Vec<_>>().join(" ") }
+
+/// `scanrange <start> <cnt>` (stream scanchars): EVERY Unicode scalar value of the range is tokenized in 7 positions
+/// (alone, after/before an identifier letter, after a digit, after `1.`, inside a string, twice) and substituted at every
+/// position of every keyword (lower and upper case); answers the number of law violations on the crate's own answers
+/// and an FNV-1a digest of all answers, which the model recomputes.
+pub const KEYWORDS: [&str; 8] = ["and", "or", "xor", "not", "div", "mod", "true", "false"];
+pub fn scan_contexts(c: char) -> Vec<(String, Option<(usize, char)>)> {
+    let mut v: Vec<(String, Option<(usize, char)>)> = vec![(c.to_string(), None), (format!("a{c}"), None), (format!("{c}a"), None), (format!("1{c}"), None),
+        (format!("1.{c}"), None), (format!("'{c}'"), None), (format!("{c} {c}"), None)];
+    for kw in KEYWORDS { for up in [false, true] {
+        let base: Vec<char> = kw.chars().map(|x| if up { x.to_ascii_uppercase() } else { x }).collect();
+        for i in 0..base.len() { let mut b = base.clone(); b[i] = c; v.push((b.iter().collect(), Some((i, kw.chars().nth(i).unwrap())))); }
+    } }
+    v
+}
+pub fn fnv(mut d: u64, s: &str) -> u64 { for b in s.bytes() { d = (d ^ b as u64).wrapping_mul(0x100000001B3); } d }
+pub fn run_scanrange(t: &mut Toks) -> Option<String> {
+    let start: u32 = t.next()?.parse().ok()?; let cnt: u32 = t.next()?.parse().ok()?;
+    let mut viol = 0u64; let mut digest = 0xcbf29ce484222325u64; let mut first: Option<String> = None;
+    for cp in start..start + cnt {
+        let Some(c) = char::from_u32(cp) else { continue };
+        for (text, kw) in scan_contexts(c) {
+            let r = Scanner::tokenize(&text);
+            let ans = match &r { Ok(ts) => format!("ok {}", show_toks(ts, true)), Err(e) => format!("err {}", cerr(e)) };
+            digest = fnv(digest, &ans);
+            let mut bad: Option<&str> = None;
+            if let Ok(ts) = &r {
+                // an identifier keeps its exact spelling
+                if let [T::Identifier(s)] = ts.as_slice() { if *s != text && text.chars().all(|x| x.is_alphanumeric() || x == '_') { bad = Some("identifier does not keep its exact spelling"); } }
+                // a word that differs from a keyword in one letter (beyond ASCII case) is not that keyword
+                if let Some((_, orig)) = kw { if c.to_ascii_lowercase() != orig && (c.is_alphanumeric() || c == '_') && ts.len() == 1 && !matches!(ts[0], T::Identifier(_)) && !matches!(ts[0], T::Literal(V::Number(_))) { bad = Some("a non-keyword spelling is read as a keyword"); } }
+            }
+            if let Some(b) = bad { viol += 1; if first.is_none() { first = Some(format!("{b}: tokenize({text:?}) = {ans}")); } }
+        }
+    }
+    Some(format!("viol {} digest {:016x}{}", viol, digest, first.map(|f| format!(" first {}", hex(&f))).unwrap_or_default()))
+}
